@@ -119,13 +119,14 @@ theorem exec_StackRes (cfg : Cfg) (fuel : Nat) (ctx : Ctx) (sh : Sh) (s : St) (h
         StackRes_seqM (StackRes_pushChecked ctx locals h1) fun s2 h2 =>
         StackRes_seqM (StackRes_ticksN ctx _ h2) fun s3 h3 =>
         StackRes_seqM (ih ctx body s3 h3) fun s4 h4 =>
-          ⟨h4.2, by show s.sp ≤ spEnd cfg + 1; have := h.1; omega, fun _ => h.1⟩
+        StackRes_seqM (StackRes_tick ctx h4) fun s5 h5 =>
+          ⟨h5.2, by show s.sp ≤ spEnd cfg + 1; have := h.1; omega, fun _ => h.1⟩
     | recur locals => exact ih ctx _ s h
     | crecur => exact ih ctx _ s h
     | cb k body =>
       cases k with
       | zero => exact StackRes_of_inv _ h
-      | succ k => exact StackRes_seqM (ih ctx _ s h) (fun s1 h1 => ih ctx _ s1 h1)
+      | succ k => exact StackRes_seqM (StackRes_tick ctx h) fun s0 h0 => StackRes_seqM (ih ctx _ s0 h0) (fun s1 h1 => ih ctx _ s1 h1)
     | safe body =>
       refine StackRes_seqM (StackRes_tick ctx h) (fun s h => ?_)
       simp only
